@@ -11,7 +11,11 @@ grep -q "base64" $M/meta.json && { cargo test --offline --features base64,serde 
 T2=0; if [ $NIGHTLY = 1 ]; then cargo +nightly test --offline --features nightly,serde,base64 > $M/tests_nightly.log 2>&1 || T2=1; fi
 cp $M/demo.rs tests/demo.rs
 FEAT=""; grep -q "base64" $M/meta.json && FEAT="--features base64,serde"
-if [ $NIGHTLY = 1 ]; then DC="cargo +nightly test --offline --features nightly,base64,serde --test demo -- --test-threads=1"; else DC="cargo test --offline $FEAT --test demo"; fi
+REL=""; grep -q '"demo_cmd".*--release' $M/meta.json && REL="--release"
+SIMD=""; grep -q '"demo_cmd".*simd_backend' $M/meta.json && SIMD=",simd_backend"
+if [ $NIGHTLY = 1 ]; then DC="cargo +nightly test --offline $REL --features nightly,base64,serde$SIMD --test demo -- --test-threads=1"; else
+  if [ -n "$SIMD" ]; then FEAT="--features base64,serde,simd_backend"; fi
+  DC="cargo test --offline $REL $FEAT --test demo"; fi
 D1=0; $DC > $M/demo_with.log 2>&1 || D1=1
 git checkout -q -- .
 D0=0; $DC > $M/demo_without.log 2>&1 || D0=1
